@@ -263,6 +263,7 @@ class Interp:
         self.handled = []
         self.try_depth = 0
         self.decline_fault_in_try = False
+        self.strict_private = False
 
     # --- variables
     def lookup(self, name):
@@ -300,7 +301,7 @@ class Interp:
 
     # --- blocks
     def push(self, ns=None, vars=None):
-        f = Frame(ns if ns is not None else 'missionnamespace')
+        f = Frame(ns if ns is not None else (self.frames[-1].ns if self.frames else 'missionnamespace'))
         if vars:
             f.vars.update(vars)
         self.frames.append(f)
@@ -346,6 +347,8 @@ class Interp:
             return None
         if k == 'private':
             for n in s[1]:
+                if n.lower() in self.frames[-1].vars and self.strict_private:
+                    raise ModelDeclines('private "x" for a name already bound in the same scope (value afterwards not fixed by the statement)')
                 self.frames[-1].vars[n.lower()] = None
             return None
         if k == 'params':
@@ -1314,11 +1317,12 @@ def _is_try_body(st, b):
     return find(st)
 
 
-def run_program(block, max_steps=200000, decline_fault_in_try=False):
+def run_program(block, max_steps=200000, decline_fault_in_try=False, strict_private=False):
     """main script, then every spawned script (each with an empty local chain); returns (interp, outcomes)
     outcomes: list of (script id, ('ok', v) | ('error', SqfError)) in start order; script 0 is the main script"""
     it = Interp(max_steps)
     it.decline_fault_in_try = decline_fault_in_try
+    it.strict_private = strict_private
     outs = []
     it.cur_script = 0
     outs.append((0, it.run_script(block)))
@@ -1329,3 +1333,188 @@ def run_program(block, max_steps=200000, decline_fault_in_try=False):
         it.cur_script = sid
         outs.append((sid, it.run_script(blk, {'_this': arg, '_thisscript': 'SCRIPT'})))
     return it, outs
+
+
+# ----------------------------------------------------------------------------------------------
+# C03: scoping
+
+def _case_variant(rng, name):
+    out = []
+    for ch in name:
+        out.append(ch.upper() if rng.random() < 0.4 else ch.lower())
+    return ''.join(out)
+
+
+class GenScope:
+    """Programs that declare, shadow, assign and read locals/globals across nested scopes. Every value written is a
+    fresh integer, so a read identifies the binding it saw."""
+
+    NAMESPACES = ['missionNamespace', 'uiNamespace', 'parsingNamespace']
+
+    def __init__(self, rng, max_depth=4, max_stmts=40, avoid=()):
+        self.rng = rng
+        self.max_depth = max_depth
+        self.budget = max_stmts
+        self.avoid = set(avoid)
+        self.site = 0
+        self.val = 100
+        self.features = set()
+        self.locals = ['_a', '_b', '_c']
+        self.globals = ['ga', 'gb', 'gc']
+        self.nsid = 0
+
+    def next_site(self):
+        self.site += 1
+        return self.site
+
+    def fresh_val(self):
+        self.val += 1
+        return ('num', self.val)
+
+    def lname(self):
+        return _case_variant(self.rng, self.rng.choice(self.locals))
+
+    def gname(self):
+        return _case_variant(self.rng, self.rng.choice(self.globals))
+
+    def read(self, name):
+        # reading an undefined variable yields nil (with a warning) and needs no extra scope
+        if self.rng.random() < 0.2:
+            return ('isnil', name)
+        return ('var', name)
+
+    def reads(self, ctx):
+        r = self.rng
+        names = [_case_variant(r, n) for n in self.locals + (self.globals if not ctx.get('no_globals') else [])]
+        extra = [_case_variant(r, n) for n in ctx.get('magic', [])]
+        return [('trace', self.next_site(), ('arr', [self.read(n) for n in names + extra]))]
+
+    def block(self, ctx, n=None):
+        out = []
+        n = n if n is not None else self.rng.randint(1, 5)
+        for _ in range(n):
+            if self.budget <= 0:
+                break
+            out += self.stmt(ctx)
+        return out
+
+    def sub(self, ctx, kind, **kw):
+        c = dict(ctx)
+        c['depth'] = ctx['depth'] + 1
+        c['bound'] = set()
+        c['loop_body'] = kind in ('for', 'forEach', 'count', 'apply', 'while')
+        c['in_loop'] = ctx.get('in_loop') or c['loop_body']
+        c.update(kw)
+        self.features.add(kind)
+        return c
+
+    def stmt(self, ctx):
+        r = self.rng
+        self.budget -= 1
+        deep = ctx['depth'] >= self.max_depth
+        flat_only = ctx.get('flat_only')
+        ch = ['read', 'read', 'assign', 'assign', 'privassign', 'private']
+        if not ctx.get('no_globals'):
+            ch += ['gassign', 'gassign', 'setvar', 'getvar']
+        if not deep and not flat_only:
+            ch += ['call', 'callarg', 'ifthen', 'for', 'foreach', 'count', 'apply', 'while', 'exitblock']
+            if ctx['depth'] <= 1 and not ctx.get('in_spawn') and not ctx.get('in_loop'):
+                ch += ['spawn']   # never inside a loop: each spawn statement starts exactly one script, so its reads can be told apart
+            if not ctx.get('in_with'):
+                ch += ['with', 'with']
+        k = r.choice(ch)
+        if k == 'read':
+            return self.reads(ctx)
+        if k == 'assign':
+            self.features.add('assign')
+            nm = self.lname()
+            ctx.setdefault('bound', set()).add(nm.lower())
+            return [('assign', nm, self.fresh_val(), False)]
+        if k == 'privassign':
+            self.features.add('private-assign')
+            nm = self.lname()
+            ctx.setdefault('bound', set()).add(nm.lower())
+            return [('assign', nm, self.fresh_val(), True)]
+        if k == 'private':
+            # only names not (possibly) bound in this very scope yet: what `private "x"` does to an existing binding of the same scope is not fixed
+            free = [n for n in self.locals if n not in ctx.get('bound', set())]
+            if not free or ctx.get('loop_body'):
+                return self.reads(ctx)
+            self.features.add('private-decl')
+            names = r.sample(free, min(len(free), r.choice([1, 1, 2])))
+            ctx.setdefault('bound', set()).update(names)
+            return [('private', [_case_variant(r, n) for n in names])]
+        if k == 'gassign':
+            if ctx.get('no_globals'):
+                return self.reads(ctx)
+            self.features.add('global-assign')
+            return [('assign', self.gname(), self.fresh_val(), False)]
+        if k == 'setvar':
+            self.features.add('setVariable')
+            return [('setvar', r.choice(self.NAMESPACES), self.gname(), self.fresh_val())]
+        if k == 'getvar':
+            self.features.add('getVariable')
+            ns = r.choice(self.NAMESPACES)
+            nm = self.gname()
+            return [('tracev', self.next_site(), ('getvar', ns, nm))]
+        if k == 'call':
+            c2 = self.sub(ctx, 'call')
+            return [('expr', ('call', self.block(c2) + self.reads(c2), None))]
+        if k == 'callarg':
+            c2 = self.sub(ctx, 'call-params', magic=['_this'])
+            names = r.sample(self.locals, r.choice([1, 2, 3]))
+            nargs = r.randint(0, 3)
+            self.features.add('params-short' if nargs < len(names) else 'params')
+            c2['bound'] = set(names)
+            blk = [('params', [_case_variant(r, n) for n in names])] + self.block(c2) + self.reads(c2)
+            return [('expr', ('call', blk, ('arr', [self.fresh_val() for _ in range(nargs)])))]
+        if k == 'ifthen':
+            c2 = self.sub(ctx, 'if')
+            return [('expr', ('ifte', ('bool', r.random() < 0.6), self.block(c2) + self.reads(c2), self.block(c2)))]
+        if k == 'for':
+            c2 = self.sub(ctx, 'for')
+            v = '_i'   # the loop variable is never assigned by the body (the VM reads it back; the statement does not say what then happens)
+            c2 = dict(c2, magic=ctx.get('magic', []) + [v])
+            return [('for', v, ('num', 1), ('num', r.choice([1, 2, 3])), None, self.block(c2) + self.reads(c2))]
+        if k == 'foreach':
+            c2 = self.sub(ctx, 'forEach', magic=ctx.get('magic', []) + ['_x', '_forEachIndex'])
+            return [('foreach', self.block(c2) + self.reads(c2), ('arr', [self.fresh_val() for _ in range(r.randint(0, 3))]))]
+        if k == 'count':
+            c2 = self.sub(ctx, 'count', magic=ctx.get('magic', []) + ['_x'], flat_only=False)
+            return [('tracev', self.next_site(), ('countc', self.block(c2) + self.reads(c2) + [('expr', ('bool', True))], ('arr', [self.fresh_val() for _ in range(r.randint(0, 3))])))]
+        if k == 'apply':
+            c2 = self.sub(ctx, 'apply', magic=ctx.get('magic', []) + ['_x'])
+            return [('tracev', self.next_site(), ('apply', ('arr', [self.fresh_val() for _ in range(r.randint(0, 3))]), self.block(c2) + [('expr', self.read(self.lname()))]))]
+        if k == 'while':
+            c2 = self.sub(ctx, 'while')
+            w = '_w%d' % self.next_site()
+            n = r.randint(0, 3)
+            cond = self.block(c2, r.randint(0, 1)) + [('expr', ('bin', '<', ('var', w), ('num', n)))]
+            body = [('assign', w, ('bin', '+', ('var', w), ('num', 1)), False)] + self.block(c2) + self.reads(c2)
+            return [('assign', w, ('num', 0), True), ('while', cond, body)]
+        if k == 'exitblock':
+            c2 = self.sub(ctx, 'exitWith')
+            return [('expr', ('call', [('exitwith', ('bool', r.random() < 0.7), self.block(c2) + self.reads(c2))] + self.block(c2) + self.reads(c2), None))]
+        if k == 'spawn':
+            self.nsid += 1
+            # a spawned script runs interleaved with its starter: it gets no globals, so every read is determined
+            c2 = self.sub(ctx, 'spawn', in_spawn=True, in_with=True, flat_only=False, magic=['_this'], no_globals=True)
+            names = r.sample(self.locals, r.choice([0, 1, 2]))
+            c2['bound'] = set(names)
+            blk = ([('params', [_case_variant(r, n) for n in names])] if names else []) + self.reads(c2) + self.block(c2) + self.reads(c2)
+            arg = ('arr', [self.fresh_val() for _ in range(r.randint(0, 2))])
+            return [('spawn', blk, arg, self.nsid)]
+        if k == 'with':
+            ns = r.choice(self.NAMESPACES)
+            c2 = self.sub(ctx, 'with', in_with=True, flat_only=('with-nested' in self.avoid))
+            if not c2['flat_only']:
+                self.features.add('with-nested')
+            return [('with', ns, self.block(c2) + self.reads(c2))]
+        raise ValueError(k)
+
+    def program(self):
+        ctx = {'depth': 0}
+        body = self.reads(ctx) + self.block(ctx, self.rng.randint(4, 9))
+        while self.budget > 3 and len(body) < 14:
+            body += self.block(ctx, 2)
+        return body + self.reads(ctx)
